@@ -151,9 +151,10 @@ func smallCoord(name string) float32 {
 func H_ViewBoxChunk() {
 	hot := vp.Choice("hot", 4)
 	width := 1 << vp.Choice("width", 3)
+	two := vp.Choice("two", 2) == 1 // also the opposite corner's coordinate on the same axis is wide
 	var body []byte
 	for j := 0; j < 4; j++ {
-		if j == hot {
+		if j == hot || (two && j == (hot+2)%4) {
 			x := vp.Bytes("wide", width)
 			want := byte(0)
 			if width == 2 {
